@@ -449,6 +449,10 @@ VERIF_SWAP_FN(verif_ulong) VERIF_SWAP_FN(IntStack) VERIF_SWAP_FN(GMap) VERIF_SWA
 #define swap(a, b) _Generic((a), unsigned long *: swap_verif_ulong, IntStack *: swap_IntStack, GMap *: swap_GMap, IntVec *: swap_IntVec, ReqVec *: swap_ReqVec, BoolVec *: swap_BoolVec)((a), (b))
 #define IntMap_size GMap_size
 #define UlMap_size GMap_size
+/* std::map::empty() */
+static inline _Bool GMap_empty(GMap *m) { return m->size == 0; }
+#define IntMap_empty GMap_empty
+#define UlMap_empty GMap_empty
 /* copy assignment; the printer hands the source over by address or by value depending on what it knows about the parameter */
 static inline GMap *GMap_assign_p(GMap *dst, GMap *src) { *dst = *src; return dst; }
 static inline GMap *GMap_assign_v(GMap *dst, GMap src) { *dst = src; return dst; }
